@@ -7,7 +7,7 @@ EXTENDS ConnServe, Json
 BoolSet == {TRUE, FALSE}
 
 MkReq(v, c, k, h) == [ver |-> v, conn |-> c, kind |-> k, hclose |-> h]
-MkCfg(dk, mr, rmu, vs, kh) == [dk |-> dk, maxReqs |-> mr, rmu |-> rmu, viaServe |-> vs, keepHij |-> kh, perIP |-> FALSE, busy |-> FALSE, tls |-> FALSE, nonorm |-> FALSE]
+MkCfg(dk, mr, rmu, vs, kh) == [dk |-> dk, maxReqs |-> mr, rmu |-> rmu, viaServe |-> vs, keepHij |-> kh, perIP |-> FALSE, busy |-> FALSE, tls |-> FALSE, nonorm |-> FALSE, scan |-> FALSE]
 \* nonorm: Server.DisableHeaderNamesNormalizing, and the client spells its header NAMES in another
 \* case (field names are case-insensitive: the design does not look at the spelling at all)
 WithNoNorm(c) == [c EXCEPT !.nonorm = TRUE]
@@ -46,7 +46,10 @@ ReqsC17 == { MkReq("1.1", "none", "ok", FALSE), MkReq("1.1", "none", "hijack", F
              MkReq("1.1", "none", "hijack", TRUE), MkReq("1.1", "none", "nrflag", FALSE),
              MkReq("1.1", "none", "hijackbody", FALSE), MkReq("1.1", "none", "hijackdl", FALSE),
              MkReq("1.1", "none", "hijackfail", FALSE) }
-CfgsC17 == { MkCfg(dk, 0, rmu, vs, kh) : dk \in BoolSet, rmu \in BoolSet, vs \in BoolSet, kh \in BoolSet }
+\* scan: the idle-connection scan of a concurrent Shutdown (closeIdleConns) runs in the middle of the
+\* hand-over; a connection in that phase is not idle, so nothing observable changes
+CfgsC17base == { MkCfg(dk, 0, rmu, vs, kh) : dk \in BoolSet, rmu \in BoolSet, vs \in BoolSet, kh \in BoolSet }
+CfgsC17 == CfgsC17base \cup { [c EXCEPT !.scan = TRUE] : c \in { MkCfg(FALSE, 0, rmu, vs, FALSE) : rmu \in BoolSet, vs \in BoolSet } }
 
 Obs == [ cfg |-> cfg, batches |-> batches, clientClosed |-> cliClosed, clientStalled |-> cliStalled, states |-> states,
          resps |-> resps, disp |-> disp, srvClosed |-> srvClosed,
